@@ -11,10 +11,10 @@ func aggStream(r *rng, maxN int) []record {
 	for i := 0; i < n; i++ {
 		var rec record
 		if !r.chance(1, 8) {
-			rec = append(rec, field{"a", r.pick([]string{"pan", "eks", "wye", "", "1", "01"})})
+			rec = append(rec, field{"a", r.pick([]string{"pan", "eks", "wye", "", "1", "01", "x,y", "x", "p\\", "p"})})
 		}
 		if !r.chance(1, 6) {
-			rec = append(rec, field{"b", r.pick([]string{"u", "v", "a,b", "1.0"})})
+			rec = append(rec, field{"b", r.pick([]string{"u", "v", "a,b", "1.0", "z", "y,z", ",q", "\\,q"})})
 		}
 		if !r.chance(1, 8) {
 			rec = append(rec, field{"x", r.pick([]string{"1", "2", "3", "-4", "10", "0x10", "2.5", "0.1", "0.2", "", "abc", "1e3", "9223372036854775807", "7", "7", "-0.5", "3.0"})})
